@@ -593,6 +593,13 @@ class Evaluator:
             if key in self.atoms:
                 a = self.atoms[key]
                 return a([self.ev(x, env) for x in e["args"]]) if callable(a) else a
+            fv = None
+            try:
+                fv = self.ev(e["f"], env)
+            except Unrecognised:
+                pass
+            if fv is not None and fv[0] in ("closure", "enum"):
+                return self.apply(fv, [self.ev(x, env) for x in e["args"]])      # a local closure / function item called by name
             raise Unrecognised(f"indirect call through {key}")
         cal = hir.callee(e)
         decl = hir.callee_decl(e)
